@@ -277,6 +277,11 @@ def check_C06(cx):
                     ("d6q3nb", cfg({"W%d" % i: W("Wv") for i in range(1, 7)}, {"C1": "nil"}, qsize=3, until=False)),
                     ("d4q8", cfg({"W%d" % i: W("W1", "CW1", "Wv") for i in range(1, 5)}, {"C1": "e1"}, qsize=8, until=True))]:
         random_runs(cx, name, c, 24 if quick else 200, policies=("drain",), sizes=NZ_SIZES)
+    # graceful close when the Close comes from a handler inside the read loop
+    hc = cfg({"W1": W("W1"), "W2": W("Wv")}, {}, qsize=1, until=True, serve="full", reads=1, readcloses=[1])
+    mc_and_replay_cex(cx, "MChandlerclose", hc, inv, what="C06 invariants, Close issued by a handler inside the read loop")
+    random_runs(cx, "hc3q2", cfg({"W1": W("W1", "Wv"), "W2": W("Wv", "WW"), "W3": W("CW1")}, {}, qsize=2, until=True, serve="full", reads=2, readcloses=[2]),
+                n, policies=("window", "drain", "uniform"), sizes=NZ_SIZES)
     # the parent context (bootstrap shutdown) is cancelled around Close: Close must still wait and drain
     pc = cfg({"W1": W("W1"), "W2": W("Wv")}, {"C1": "e1"}, qsize=1, until=True, pcancel=True)
     mc_and_replay_cex(cx, "MCpcancel", pc, inv, what="C06 invariants with parent-context cancellation")
@@ -434,6 +439,13 @@ def check_C05(cx):
     n = 30 if quick else 300
     for name, c in big:
         random_runs(cx, name, c, n, fault_prob=0.15, sizes=NZ_SIZES)
+    # Close issued by a handler from inside the read loop, racing with user Close calls
+    hc = cfg({"W1": W("W1")}, {"C1": "e1"}, qsize=1, until=True, serve="full", reads=2, readcloses=[1])
+    mc_and_replay_cex(cx, "MChandlerclose", hc, inv, what="C05 invariants, Close from a handler inside the read loop vs a user Close")
+    st = replay_graph(cx, "ghc", cfg({}, {"C1": "e1"}, qsize=1, until=True, serve="full", reads=2, readcloses=[2]), max_paths=200 if quick else None)
+    log("  replay ghc: %s" % st)
+    random_runs(cx, "hc2", cfg({"W1": W("W1", "Wv"), "W2": W("CW1")}, {"C1": "e1", "C2": "nil"}, qsize=2, until=True, serve="full", reads=3, readcloses=[2], maxfaults=1),
+                n, fault_prob=0.05, sizes=NZ_SIZES)
     # parent context cancelled without any Close call: the read loop closes the channel itself
     pinv = inv + ["C05_LoopExitClosed"]
     pc = cfg({"W1": W("W1")}, {"C1": "e1"}, qsize=1, until=True, serve="full", reads=1, pcancel=True)
